@@ -5,5 +5,20 @@ claim("C04",
       "Decides, for every path of every function, structural necessary conditions of 'every issued revision is resolved': an allocated revision is reported to the event sink or returned to a caller that reports it (incl. drift-back and storage-error paths), the sink stores every non-zero revision, the sequencer commits and clears every consumed slot, validity is err==nil of the committing call, and only four roles can move the counters. Behaviour under schedules (liveness, ring capacity) is not decided.",
       STATIC_NOTE, "DESIGN.md §3 C04")
 
-for pid in ["C01","C02","C03","C05","C06","C07","C08","C09","C10","C11","C12","C13","C14","C15","C16","C17","C18","C19","C20"]:
+claim("C08",
+      "who-may-write + guard-dominance with path feasibility on the compaction record; guarded call-graph traversal",
+      "Decides on all paths that (R1) every storage write to the compaction-record key is put-if-absent or a CAS of the value just read guarded by stored<=new, (R2) every call path from Scanner.Range/Count/RangeStream to an engine iterator passes the floor check with compact=false whose error returns first and checks the scanned revision, (R3) the snapshot timestamp is taken before the check, (R4) the check refuses exactly on stored>requested. These are necessary and, given atomic engine CAS (C11), close to sufficient for 'the floor only rises and reads below it are refused'.",
+      STATIC_NOTE, "DESIGN.md §3 C08")
+
+claim("C18",
+      "guard-dominance over request entry points (IsLeader / SyncReadRevision facts), guard-helper summaries",
+      "Decides for every handler of both APIs, the goroutines they start, the compaction loop and the HTTP publisher that write and watch entries of the backend are dominated by IsLeader()==true, read entries by SyncReadRevision()==nil, that the follower sync returns nil only after adopting a successfully fetched revision, and that publisher/fetch agree on the status protocol. Leadership changing between check and use is not decided.",
+      STATIC_NOTE, "DESIGN.md §3 C18")
+
+claim("C20",
+      "whole-program metric name/kind/label-name table by constant and provenance resolution; frozen abort set; shares C04 path rules; guarded constant indexing",
+      "Decides the clause named in the statement exactly: every Emit* site in the program resolves to constant names and label names, and each formatted metric name has one kind and one label-name set (the precondition under which the production Prometheus client cannot panic); plus explicit aborts against an accepted set, the revision-leak rules of C04 (wedge) and length-guarded indexing of request slices in the etcd layer. Implicit panics from value arithmetic (e.g. the event ring) are not decided.",
+      STATIC_NOTE, "DESIGN.md §3 C20")
+
+for pid in ["C01","C02","C03","C05","C06","C07","C09","C10","C11","C12","C13","C14","C15","C16","C17","C19"]:
     na(pid, "static rules designed in DESIGN.md §3 but the check is not built yet; not claimed until it is")
